@@ -287,6 +287,25 @@ func NewKernel(ctx context.Context, log *slog.Logger, cfg KernelConfig) (*Kernel
 			"cannot initialize mirror kernel: failed to apply stored precommits for voting round: %w", err,
 		)
 	}
+
+	// The same holds for votes stored for the next round:
+	// if they already justify jumping to that round,
+	// and the process stopped before the jump was persisted, apply it now.
+	if initState.Voting.Height == h && initState.Voting.Round == r {
+		if err := k.checkPrevoteViewShift(ctx, &initState, ViewIDNextRound); err != nil {
+			return nil, fmt.Errorf(
+				"cannot initialize mirror kernel: failed to apply stored prevotes for next round: %w", err,
+			)
+		}
+	}
+	if initState.Voting.Height == h && initState.Voting.Round == r {
+		if err := k.checkNextRoundPrecommitViewShift(ctx, &initState); err != nil {
+			return nil, fmt.Errorf(
+				"cannot initialize mirror kernel: failed to apply stored precommits for next round: %w", err,
+			)
+		}
+	}
+
 	if initState.Voting.Height != h || initState.Voting.Round != r {
 		// The shift has been persisted now.
 		// Start over from the stores, so that anything already stored
